@@ -201,10 +201,36 @@ class Verifier:
                 col.add('EXC', con.props, info.qualname, ptag + ':must-raise-' + en,
                         'returns normally only when %s is not due' % en, asm, z3.Not(when))
         self.check_frame(ex, info, con, pre, st, ctx, ptag, asm)
+        if con.opts.get('class_state'):
+            self.check_class_state(ex, info, con, st, ptag, asm)
         if canary:
             col.add('CANARY', con.props, info.qualname, ptag.rsplit(':', 1)[0] + ':canary',
                     'ensures(False) must be refuted (the engine does not prove everything)', asm, z3.BoolVal(False),
                     must='refuted')
+
+    def check_class_state(self, ex, info, con, st, ptag, asm):
+        """non-interference of initialize(): on every returning path no class attribute was read before
+        being assigned, and every attribute of the class schema has been assigned"""
+        cq = con.opts['class_state']
+        col = self.col
+        reads = [k for k in st.ghost.get('prior_reads', []) if k[0] == cq]
+        written = set(st.ghost.get('cattr_writes', []))
+        may_keep = con.opts.get('may_keep') or {}
+        sc = ex.C.schema(cq)
+        for k in sorted(set(reads)):
+            col.add('REL', con.props, info.qualname, '%s:prior-read-%s' % (ptag, k[1]),
+                    'class attribute %s is not read before it is assigned (no dependence on earlier elections)' % k[1],
+                    asm, z3.BoolVal(False))
+        missing = [a for a in sc.cattrs if (cq, a) not in written and a not in may_keep]
+        if missing:
+            col.add('REL', con.props, info.qualname, '%s:unassigned-%s' % (ptag, ','.join(missing)[:60]),
+                    'every class attribute is assigned on every returning path: %s left over' % ','.join(missing),
+                    asm, z3.BoolVal(False))
+        else:
+            col.add_done('REL', con.props, info.qualname, '%s:all-assigned' % ptag,
+                         'every class attribute of %s is (re)assigned from the options; none read before assignment%s'
+                         % (cq.rsplit('.', 1)[-1], ' (conditionally kept: %s)' % ', '.join(sorted(may_keep)) if may_keep else ''),
+                         not reads)
 
     def kind_matches(self, k, v):
         if k == 'none':
@@ -259,6 +285,9 @@ class Verifier:
                 allowed_all.add((m[1], m[2]))
             elif m[0] == 'ghost':
                 allowed_ghost.add('g:' + m[1])
+            elif m[0] == 'dict':
+                allowed_fields.setdefault(('dict', 'has'), []).append(m[1].t)
+                allowed_fields.setdefault(('dict', 'val'), []).append(m[1].t)
             else:
                 allowed_cattr.add((m[1], m[2]))
         for key, arr in st.heap.items():
